@@ -304,11 +304,12 @@ mod repr {
 
         // residue = g - rhs * b
         let brhs_len = rhs_clone.len() + b.len();
-        let (residue, mut memory) = memory.allocate_slice_fill(brhs_len + 1, 0);
+        // (the residue is divided by lhs below, so it needs at least lhs_len words)
+        let (residue, mut memory) = memory.allocate_slice_fill((brhs_len + 1).max(lhs_len), 0);
         mul::multiply(&mut residue[..brhs_len], rhs_clone, &b, &mut memory);
         match b_sign {
             Sign::Negative => {
-                *residue.last_mut().unwrap() = add::add_in_place(residue, &g) as Word;
+                residue[brhs_len] = add::add_in_place(&mut residue[..brhs_len], &g) as Word;
             }
             Sign::Positive => {
                 let overflow = add::sub_in_place(residue, &g);
